@@ -91,8 +91,12 @@ Theorem write_vtt_order_independent d so so' ro ro' :
 Proof.
   intros Ps Pr. unfold write_vtt. destruct (vd_items d); [reflexivity|].
   rewrite (ssort_order_independent so so' Ps).
-  rewrite (ssort_order_independent _ _ (Permutation_map (fun k => match aget k (vd_regions d) with Some rg => rg_id rg | None => k end) Pr)).
-  reflexivity.
+  rewrite (ssort_order_independent ro ro' Pr).
+  assert (E : match ro with [] => @nil N | _ => [10%N] end = match ro' with [] => @nil N | _ => [10%N] end).
+  { destruct ro as [|x r]; destruct ro' as [|x' r']; try reflexivity.
+    - apply Permutation_nil in Pr. discriminate.
+    - apply Permutation_sym, Permutation_nil in Pr. discriminate. }
+  rewrite E. reflexivity.
 Qed.
 
 (* ---- the writer issues one Write with the whole document ---- *)
